@@ -16,4 +16,14 @@ theorem real_check : realRaw.check = true := by decide +kernel
 theorem real_WF : WF realTables (· ∈ realRaw.reach) realRaw.accOf :=
   Raw.check_sound real_check
 
+/-- the symbols a semantic action may accept at: `inputunit` and `simple_list` (by name) -/
+def acceptSyms : List Nat :=
+  (Gen.ntNames.zipIdx.filter fun (n, _) => n == "inputunit" || n == "simple_list").map fun (_, i) =>
+    Gen.termNames.length + i
+
+theorem real_checkAcc : realRaw.checkAcc acceptSyms = true := by decide +kernel
+
+theorem real_AccOK : AccOK realTables (· ∈ realRaw.reach) (· ∈ acceptSyms) :=
+  Raw.checkAcc_sound real_check real_checkAcc
+
 end Bashlex.LR
